@@ -206,7 +206,7 @@ fn rayon_scenario() {
     let tiles = || Some(TileSizes::new(&[4, 2]).unwrap());
 
     // 2-D
-    let cfg = pixel::RenderConfig::from_size(ImageSize::new(8, 6));
+    let cfg = pixel::RenderConfig::from_size(ImageSize::new(7, 5));
     let run2 = |threads: Option<&ThreadPool>, cancel: CancelToken| {
         pixel::render(
             shape.clone().try_into().unwrap(),
@@ -223,23 +223,30 @@ fn rayon_scenario() {
     let p2 = pool(2);
     assert_eq!(run2(Some(&p2), CancelToken::new()).unwrap(), seq, "2-D pool");
     // cancelled at a schedule-dependent instant: None or the complete image
-    let tok = CancelToken::new();
-    let t2 = tok.clone();
-    let h = std::thread::spawn(move || {
-        std::thread::yield_now();
-        t2.cancel();
-    });
-    match run2(Some(&p2), tok) {
-        None => (),
-        Some(img) => assert_eq!(img, seq, "2-D cancelled run returned a partial image"),
+    for yields in [1usize, 6, 25, 60] {
+        let tok = CancelToken::new();
+        let t2 = tok.clone();
+        let h = std::thread::spawn(move || {
+            for _ in 0..yields {
+                std::thread::yield_now();
+            }
+            t2.cancel();
+        });
+        match run2(Some(&p2), tok) {
+            None => (),
+            Some(img) => assert_eq!(
+                img, seq,
+                "2-D cancelled run returned a partial image"
+            ),
+        }
+        h.join().unwrap();
     }
-    h.join().unwrap();
     let pre = CancelToken::new();
     pre.cancel();
     assert!(run2(Some(&p2), pre).is_none(), "2-D pre-cancelled run returned a result");
 
     // 3-D
-    let cfg3 = voxel::RenderConfig::from_size(VoxelSize::new(6, 8, 5));
+    let cfg3 = voxel::RenderConfig::from_size(VoxelSize::new(6, 5, 4));
     let run3 = |threads: Option<&ThreadPool>, cancel: CancelToken| {
         voxel::render(
             shape.clone().try_into().unwrap(),
@@ -259,7 +266,7 @@ fn rayon_scenario() {
     // mesh
     let build = |threads: Option<&ThreadPool>, cancel: CancelToken| {
         let s = Settings {
-            depth: 2,
+            depth: 1,
             world_to_model: nalgebra_identity(),
             threads,
             cancel,
